@@ -11,6 +11,7 @@ import (
 	"testing"
 	"time"
 
+	"github.com/hashicorp/consul/agent/consul"
 	"github.com/hashicorp/consul/agent/structs"
 	"github.com/hashicorp/consul/internal/verifsim/simkit"
 )
@@ -444,6 +445,66 @@ func (C03) execute(p *Plan, r *simkit.Run) *simkit.Violation {
 			if strings.Join(got, "\x00") != strings.Join(want, "\x00") {
 				return mk(i, s, "model-mismatch:list", "list-equals-model", fmt.Sprintf("prefix %q: store %q model %q", pfx, got, want))
 			}
+		}
+		// the same views through the real RPC endpoints on the leader's shell (KVS.Get / List / ListKeys with a
+		// separator): a rotating sample of the pool per step
+		if err := consul.VerifServeReads(c.Shell); err != nil {
+			panic(err)
+		}
+		for n := 0; n < 3; n++ {
+			pfx := pool[(i*3+n)%len(pool)]
+			sep := []string{"/", "", "b", "a/"}[(i+n)%4]
+			var want []string
+			for _, k := range simkit.SortedKeys(model.keys) {
+				if !strings.HasPrefix(k, pfx) {
+					continue
+				}
+				// documented: with a separator, a key is listed only up to and including the first separator
+				// after the prefix, and each such stem once
+				item := k
+				if sep != "" {
+					if at := strings.Index(k[len(pfx):], sep); at >= 0 {
+						item = k[:len(pfx)+at+len(sep)]
+					}
+				}
+				if len(want) == 0 || want[len(want)-1] != item {
+					want = append(want, item)
+				}
+			}
+			var kl structs.IndexedKeyList
+			if err := consul.VerifRead(c.Shell, "KVS.ListKeys", &structs.KeyListRequest{Datacenter: "dc1", Prefix: pfx, Seperator: sep}, &kl); err != nil {
+				return mk(i, s, "model-mismatch:keys", "keys-equal-model", fmt.Sprintf("KVS.ListKeys(%q, %q): %v", pfx, sep, err))
+			}
+			if strings.Join(kl.Keys, "\x00") != strings.Join(want, "\x00") {
+				return mk(i, s, "model-mismatch:keys", "keys-equal-model", fmt.Sprintf("KVS.ListKeys prefix %q separator %q: endpoint %q model %q", pfx, sep, kl.Keys, want))
+			}
+			var le structs.IndexedDirEntries
+			if err := consul.VerifRead(c.Shell, "KVS.List", &structs.KeyRequest{Datacenter: "dc1", Key: pfx}, &le); err != nil {
+				return mk(i, s, "model-mismatch:list", "list-equals-model", fmt.Sprintf("KVS.List(%q): %v", pfx, err))
+			}
+			var gotL, wantL []string
+			for _, e := range le.Entries {
+				gotL = append(gotL, e.Key)
+			}
+			for _, k := range simkit.SortedKeys(model.keys) {
+				if strings.HasPrefix(k, pfx) {
+					wantL = append(wantL, k)
+				}
+			}
+			if strings.Join(gotL, "\x00") != strings.Join(wantL, "\x00") {
+				return mk(i, s, "model-mismatch:list", "list-equals-model", fmt.Sprintf("KVS.List prefix %q: endpoint %q model %q", pfx, gotL, wantL))
+			}
+			if pfx != "" {
+				var ge structs.IndexedDirEntries
+				if err := consul.VerifRead(c.Shell, "KVS.Get", &structs.KeyRequest{Datacenter: "dc1", Key: pfx}, &ge); err != nil {
+					return mk(i, s, "model-mismatch:get", "get-equals-model", fmt.Sprintf("KVS.Get(%q): %v", pfx, err))
+				}
+				st, inStore := after[pfx]
+				if inStore != (len(ge.Entries) == 1) || (inStore && !(ge.Entries[0].Equal(&st) && ge.Entries[0].ModifyIndex == st.ModifyIndex && ge.Entries[0].CreateIndex == st.CreateIndex)) {
+					return mk(i, s, "model-mismatch:get", "get-equals-model", fmt.Sprintf("KVS.Get(%q): endpoint %s, store (already compared with the model) %s present=%v", pfx, simkit.Canon(ge.Entries), simkit.Canon(st), inStore))
+				}
+			}
+			r.Hit("probe.endpoint-reads")
 		}
 		// index laws, from the store's own before/after (independent of the model)
 		if s.Op != "txn" && c.Failovers == fo {
